@@ -1,5 +1,7 @@
 // C05 — JSON/XDL encode -> decode fidelity: complete enumeration of small Var trees / scalar sweeps / key and string
-// alphabets, every encoder mode, python json as the independent strict parser, file round trips across the chunk sizes.
+// alphabets, every encoder mode incl. the default-argument forms, python json as the independent strict parser (texts and
+// written files), file round trips across the chunk sizes with a classifier of what the read-chunk boundary splits,
+// the number grids once more under a decimal-comma locale.
 #include <asl/Xdl.h>
 #include <asl/JSON.h>
 #include <asl/Var.h>
@@ -8,6 +10,7 @@
 #include <float.h>
 #include <limits.h>
 #include <math.h>
+#include <locale.h>
 #include "vf.h"
 #include "aslx.h"
 #include "refjson.h"
@@ -15,6 +18,8 @@ using namespace asl;
 using vf::fmt;
 
 static int C_EVAL, C_DIST, W_FILE_CHUNK, W_FILE_FLUSH, W_TINYFILE, C_PY;
+static int W_DEFAULT_ARG, W_DEFAULT_ARG_FILE, W_NON_UTF8, C_SKIP_XDL, C_PY_SAME, W_PY_SIMPLE, W_PY_FILE, C_PY_OPENFAIL, W_CTRL, W_BYTES, W_CLASS, W_LOCALE, W_INTS,
+	W_SPLIT_UNI, W_SPLIT_ESC, W_SPLIT_NUM, W_SPLIT_UTF8, W_SPLIT_IDENT, W_SPLIT_STR, W_BIG, W_BIG_BOUNDARIES, W_PY_CHECKED;
 
 // ---------------------------------------------------------------- model
 struct M {
@@ -30,6 +35,8 @@ struct M {
 	static M str(const std::string& x) { M m; m.t = STR; m.s = x; return m; }
 	static M arr() { M m; m.t = ARR; return m; }
 	static M obj() { M m; m.t = OBJ; return m; }
+	M& add(const M& x) { a.push_back(x); return *this; }
+	M& set(const std::string& k, const M& x) { o.push_back(std::make_pair(k, x)); return *this; }
 };
 static Var toVar(const M& m) {
 	switch (m.t) {
@@ -41,10 +48,10 @@ static Var toVar(const M& m) {
 	return Var();
 }
 static uint64_t bits(double d) { uint64_t u; memcpy(&u, &d, 8); return u; }
-// pattern handed to python: like rj::dump, floats as F<bits>
+// pattern handed to python (locale independent): n t f  #<int>  D<double bits>  F<float bits>  s<hex>  [..]  {<hexkey>:..}
 static std::string pattern(const M& m) {
 	switch (m.t) {
-	case M::NUL: return "n"; case M::BOOL: return m.b ? "t" : "f"; case M::INT: return "#" + rj::numstr(m.i); case M::DBL: return "#" + rj::numstr(m.d);
+	case M::NUL: return "n"; case M::BOOL: return m.b ? "t" : "f"; case M::INT: return fmt("#%d", m.i); case M::DBL: return fmt("D%016llx", (unsigned long long)bits(m.d));
 	case M::FLT: { uint32_t u; memcpy(&u, &m.f, 4); return fmt("F%08x", u); }
 	case M::STR: return "s" + vf::hex(m.s);
 	case M::ARR: { std::string s = "["; for (size_t i = 0; i < m.a.size(); i++) s += (i ? "," : "") + pattern(m.a[i]); return s + "]"; }
@@ -52,8 +59,22 @@ static std::string pattern(const M& m) {
 	}
 	return "?";
 }
-static std::string show(const M& m) { return pattern(m); }
-// exact: doubles bit for bit when non-zero, floats exactly as float; otherwise numbers to 15 significant digits (SIMPLE modes)
+static std::string show(const M& m) { std::string p = pattern(m); return p.size() > 400 ? p.substr(0, 400) + "..." : p; }
+
+// SIMPLE modes ("reduced precision", %.15g / %.7g): the recovered number must agree with the original to `digits` significant
+// decimal digits, i.e. differ by at most half a unit of the last kept digit (plus one ulp for the decimal->binary conversion).
+// Nothing more is promised for these modes, so a different but at least as precise format is not an error.
+static bool withinDigits(double x, double orig, int digits) {
+	if (orig == 0) return x == 0;
+	if (x == orig) return true;
+	long double a = fabsl((long double)orig);
+	int E = (int)floorl(log10l(a) + 1e-9L); // never smaller than the true decimal exponent
+	long double bound = 0.5L * powl(10.0L, (long double)(E - (digits - 1))) + a * (long double)DBL_EPSILON;
+	// the k-digit rounding of the largest doubles lies above DBL_MAX: a correct decimal->binary conversion of it is +-infinity
+	if (isinf(x)) return (x < 0) == (orig < 0) && a + bound > (long double)DBL_MAX;
+	return fabsl((long double)x - (long double)orig) <= bound;
+}
+// exact: doubles bit for bit when non-zero, floats exactly as float; otherwise numbers to 15 / 7 significant digits (SIMPLE modes)
 static bool same(const Var& v, const M& m, bool exact, std::string& why, const std::string& path) {
 	switch (m.t) {
 	case M::NUL: if (!v.is(Var::NUL)) { why = path + ": expected null"; return false; } return true;
@@ -63,14 +84,14 @@ static bool same(const Var& v, const M& m, bool exact, std::string& why, const s
 		if (!v.is(Var::NUMBER)) { why = path + ": expected a number"; return false; }
 		double x = v;
 		if (exact) { if (m.d == 0 ? x != 0 : bits(x) != bits(m.d)) { why = path + fmt(": double %.17g recovered as %.17g", m.d, x); return false; } }
-		else { double e15 = strtod(fmt("%.15g", m.d).c_str(), 0); if (x != e15) { why = path + fmt(": double %.17g recovered as %.17g, its 15-digit rounding is %.17g", m.d, x, e15); return false; } }
+		else if (!withinDigits(x, m.d, 15)) { why = path + fmt(": double %.17g recovered as %.17g, which differs in the first 15 significant digits", m.d, x); return false; }
 		return true;
 	}
 	case M::FLT: {
 		if (!v.is(Var::NUMBER)) { why = path + ": expected a number"; return false; }
-		float x = (float)(double)v;
+		double xd = v; float x = (float)xd;
 		if (exact) { if (x != m.f) { why = path + fmt(": float %.9g recovered as %.9g", m.f, x); return false; } }
-		else { float e7 = (float)strtod(fmt("%.7g", m.f).c_str(), 0); if (x != e7) { why = path + fmt(": float %.9g recovered as %.9g, its 7-digit rounding is %.9g", m.f, x, e7); return false; } }
+		else if (!withinDigits(xd, (double)m.f, 7)) { why = path + fmt(": float %.9g recovered as %.9g, which differs in the first 7 significant digits", m.f, xd); return false; }
 		return true;
 	}
 	case M::STR: { if (!v.is(Var::STRING)) { why = path + ": expected a string"; return false; } String s = v; if (vfx::S(s) != m.s) { why = path + ": string " + vf::hex(m.s) + " recovered as " + vf::hex(vfx::S(s)); return false; } return true; }
@@ -81,23 +102,54 @@ static bool same(const Var& v, const M& m, bool exact, std::string& why, const s
 	return false;
 }
 
+// one line per text for python: <hex text> TAB <pattern> TAB <E|S> TAB <case>|<what>
 static FILE* pyf = 0; static char pybuf[1 << 16];
-static void pyline(const std::string& text, const M& m) {
+static void pyline(const std::string& text, const M& m, bool exact, const std::string& kase, const char* what) {
 	if (!pyf) { pyf = fopen((vf::scratch_dir() + fmt("/py5.%d.%d", vf::worker_id(), (int)getpid())).c_str(), "a"); if (pyf) setvbuf(pyf, pybuf, _IOFBF, sizeof pybuf); }
-	if (pyf) { fprintf(pyf, "%s\t%s\n", vf::hex(text).c_str(), pattern(m).c_str()); vf::add(C_PY); }
+	if (!pyf) { vf::add(C_PY_OPENFAIL); return; }
+	fprintf(pyf, "%s\t%s\t%c\t%s|%s\n", vf::hex(text).c_str(), pattern(m).c_str(), exact ? 'E' : 'S', kase.c_str(), what);
+	vf::add(C_PY); if (!exact) vf::add(W_PY_SIMPLE);
 }
 
+static bool isIdent(const std::string& k) {
+	if (k.empty()) return false;
+	for (size_t j = 0; j < k.size(); j++) if (!(isalnum((unsigned char)k[j]) || k[j] == '_')) return false;
+	return true;
+}
+// Xdl: keys are identifiers; "$type" (ASL_XDLCLASS, accepted by the parser as a property name and written as the class prefix
+// of the object) is admitted with a string value that is an identifier other than the literals
 static bool identKeys(const M& m) {
 	if (m.t == M::ARR) { for (size_t i = 0; i < m.a.size(); i++) if (!identKeys(m.a[i])) return false; }
 	if (m.t == M::OBJ) for (size_t i = 0; i < m.o.size(); i++) {
-		const std::string& k = m.o[i].first;
-		if (k.empty()) return false;
-		for (size_t j = 0; j < k.size(); j++) if (!(isalnum((unsigned char)k[j]) || k[j] == '_')) return false;
-		if (!identKeys(m.o[i].second)) return false;
+		const std::string& k = m.o[i].first; const M& c = m.o[i].second;
+		if (k == "$type") { if (c.t != M::STR || !isIdent(c.s) || isdigit((unsigned char)c.s[0]) || c.s == "Y" || c.s == "N" || c.s == "true" || c.s == "false" || c.s == "null") return false; continue; }
+		if (!isIdent(k)) return false;
+		if (!identKeys(c)) return false;
 	}
 	return true;
 }
-static bool validUtf8(const std::string& s) { rj::Ref r; r.feed('"'); r.feed(s); return !r.excluded; }
+static bool hasClass(const M& m) {
+	if (m.t == M::ARR) { for (size_t i = 0; i < m.a.size(); i++) if (hasClass(m.a[i])) return true; }
+	if (m.t == M::OBJ) for (size_t i = 0; i < m.o.size(); i++) if (m.o[i].first == "$type" || hasClass(m.o[i].second)) return true;
+	return false;
+}
+// strict UTF-8 (what python's decoder accepts): no overlong forms, no surrogates, nothing above U+10FFFF, no truncated sequence
+static bool validUtf8(const std::string& s) {
+	size_t i = 0, n = s.size();
+	while (i < n) {
+		unsigned char c = s[i];
+		int need; unsigned lo = 0x80, hi = 0xbf;
+		if (c < 0x80) { i++; continue; }
+		else if (c >= 0xc2 && c <= 0xdf) need = 1;
+		else if (c >= 0xe0 && c <= 0xef) { need = 2; if (c == 0xe0) lo = 0xa0; if (c == 0xed) hi = 0x9f; }
+		else if (c >= 0xf0 && c <= 0xf4) { need = 3; if (c == 0xf0) lo = 0x90; if (c == 0xf4) hi = 0x8f; }
+		else return false;
+		if (i + need >= n) return false; // truncated
+		for (int k = 1; k <= need; k++) { unsigned char d = s[i + k]; if (d < (k == 1 ? lo : 0x80u) || d > (k == 1 ? hi : 0xbfu)) return false; }
+		i += need + 1;
+	}
+	return true;
+}
 static bool allUtf8(const M& m) {
 	if (m.t == M::STR) return validUtf8(m.s);
 	if (m.t == M::ARR) { for (size_t i = 0; i < m.a.size(); i++) if (!allUtf8(m.a[i])) return false; }
@@ -105,30 +157,50 @@ static bool allUtf8(const M& m) {
 	return true;
 }
 
-static void checkOne(const M& m, const std::string& kase) {
+// defaults: also the default-argument forms Json::encode(v) (= NONE, exact) and Xdl::encode(v) (= SIMPLE)
+static void checkOne(const M& m, const std::string& kase, bool defaults = false) {
 	vf::cur(kase);
 	vf::add(C_EVAL);
 	Var v = toVar(m);
 	std::string why;
-	struct { Json::Mode mode; bool json, exact; const char* name; } modes[] = {
-		{ Json::NONE, true, true, "Json NONE" }, { Json::PRETTY, true, true, "Json PRETTY" }, { Json::SIMPLE, true, false, "Json SIMPLE" }, { Json::NICE, true, false, "Json NICE" },
-		{ Json::NONE, false, true, "Xdl NONE" }, { Json::PRETTY, false, true, "Xdl PRETTY" }, { Json::SIMPLE, false, false, "Xdl SIMPLE (default)" } };
+	enum { DEFAULT_ARG = -1 };
+	struct { int mode; bool json, exact; const char* name; int sameTextAs; } modes[] = {
+		{ Json::NONE, true, true, "Json NONE", -1 }, { Json::PRETTY, true, true, "Json PRETTY", -1 }, { Json::SIMPLE, true, false, "Json SIMPLE", 0 }, { Json::NICE, true, false, "Json NICE", 1 },
+		{ Json::NONE, false, true, "Xdl NONE", -1 }, { Json::PRETTY, false, true, "Xdl PRETTY", -1 }, { Json::SIMPLE, false, false, "Xdl SIMPLE", -1 },
+		{ DEFAULT_ARG, true, true, "Json::encode(v) default mode", 0 }, { DEFAULT_ARG, false, false, "Xdl::encode(v) default mode", -1 } };
 	bool ident = identKeys(m), utf8 = allUtf8(m);
+	if (!ident) vf::add(C_SKIP_XDL);
+	if (!utf8) vf::add(W_NON_UTF8);
+	std::string texts[2];
 	for (size_t k = 0; k < sizeof modes / sizeof *modes; k++) {
+		if (modes[k].mode == DEFAULT_ARG && !defaults) continue;
 		if (!modes[k].json && !ident) continue;
-		String text = modes[k].json ? Json::encode(v, modes[k].mode) : Xdl::encode(v, modes[k].mode);
+		String text = modes[k].mode == DEFAULT_ARG ? (modes[k].json ? Json::encode(v) : Xdl::encode(v)) : modes[k].json ? Json::encode(v, Json::Mode(modes[k].mode)) : Xdl::encode(v, modes[k].mode);
+		if (modes[k].mode == DEFAULT_ARG) vf::add(W_DEFAULT_ARG);
 		Var back = modes[k].json ? Json::decode(text) : Xdl::decode(text);
-		if (!back.ok()) vf::violation("roundtrip_reject", fmt("%s: own decoder rejects the encoder output %s of %s", modes[k].name, vf::hex(vfx::S(text)).c_str(), show(m).c_str()), kase);
+		if (!back.ok()) vf::violation("roundtrip_reject", fmt("%s: own decoder rejects the encoder output %s of %s", modes[k].name, vf::hex(vfx::S(text)).substr(0, 600).c_str(), show(m).c_str()), kase);
 		else if (!same(back, m, modes[k].exact, why, "$")) vf::violation(modes[k].json ? "roundtrip_value" : "roundtrip_value_xdl", fmt("%s: %s  (text %s)", modes[k].name, why.c_str(), vf::hex(vfx::S(text)).substr(0, 300).c_str()), kase);
-		if (modes[k].json && modes[k].exact && utf8) pyline(vfx::S(text), m);
+		if (modes[k].json && utf8) {
+			std::string t = vfx::S(text);
+			if (k < 2) texts[k] = t;
+			if (modes[k].sameTextAs >= 0 && t == texts[modes[k].sameTextAs]) vf::add(C_PY_SAME); // byte-identical to a text python already gets
+			else pyline(t, m, modes[k].exact, kase, modes[k].name);
+		}
 		if (vf::asan_tripped()) { vf::violation("asan", std::string("ASan ") + vf::asan_what() + " in " + modes[k].name, kase); vf::asan_clear(); }
 	}
 }
 
 // ---------------------------------------------------------------- enumerations
-static const char* SALPHA[] = { "a", "\"", "\\", "/", "\n", "\r", "\t", "\b", "\f", "\x01", "\x1f", "\x7f", "\xc3\xa9", "\xe2\x82\xac", "\xf0\x9f\x98\x80" };
-static const int NSA = 15;
-static std::string strOf(int len, uint64_t idx) { std::string s; for (int i = 0; i < len; i++) { s += SALPHA[idx % NSA]; idx /= NSA; } return s; }
+// the first 15 symbols are the alphabet of the old "str:" cases; "st2:" cases use all 18 (3 invalid UTF-8 fragments added)
+static const char* SALPHA[] = { "a", "\"", "\\", "/", "\n", "\r", "\t", "\b", "\f", "\x01", "\x1f", "\x7f", "\xc3\xa9", "\xe2\x82\xac", "\xf0\x9f\x98\x80", "\x80", "\xc3", "\xff" };
+static const int NSA_OLD = 15, NSA = 18;
+static std::string strOf(int len, uint64_t idx, int nsa) { std::string s; for (int i = 0; i < len; i++) { s += SALPHA[idx % nsa]; idx /= nsa; } return s; }
+// a string as value, as key, and at the 7/8-byte inline boundary of asl::String
+static M strShape(const std::string& s, int j) {
+	M m;
+	if (j == 0) m = M::str(s); else if (j == 1) { m = M::obj(); m.set(s, M::integer(1)); } else { m = M::arr(); m.add(M::str(s + "1234567")); m.add(M::str("123456" + s)); }
+	return m;
+}
 
 static std::vector<M> leaves() {
 	std::vector<M> l;
@@ -136,23 +208,36 @@ static std::vector<M> leaves() {
 	return l;
 }
 static const char* KEYS[] = { "a", "b_2", "k/\"\\", "\xc3\xa9\x01", "" };
-// all trees with exactly n nodes (n <= 5), depth <= 3, fan-out <= 2
-static void trees(int n, int depth, bool xdlKeysOnly, std::vector<M>& out) {
+// all trees with exactly n nodes, depth <= depth, fan-out <= 2. cls: also objects carrying the class property "$type": "T"
+// (the string "T" counts as a node but occurs nowhere else)
+static void trees(int n, int depth, bool cls, std::vector<M>& out) {
 	static std::vector<M> L = leaves();
 	if (n == 1) { for (size_t i = 0; i < L.size(); i++) out.push_back(L[i]); out.push_back(M::arr()); out.push_back(M::obj()); return; }
 	if (depth <= 1) return;
+	if (cls && n == 2) { M o = M::obj(); o.set("$type", M::str("T")); out.push_back(o); }
 	// one child
-	{ std::vector<M> c; trees(n - 1, depth - 1, xdlKeysOnly, c);
+	{ std::vector<M> c; trees(n - 1, depth - 1, cls, c);
 	  for (size_t i = 0; i < c.size(); i++) { M a = M::arr(); a.a.push_back(c[i]); out.push_back(a); for (int k = 0; k < 5; k++) { M o = M::obj(); o.o.push_back(std::make_pair(std::string(KEYS[k]), c[i])); out.push_back(o); } } }
 	// two children
 	for (int n1 = 1; n1 <= n - 2; n1++) {
-		std::vector<M> c1, c2; trees(n1, depth - 1, xdlKeysOnly, c1); trees(n - 1 - n1, depth - 1, xdlKeysOnly, c2);
+		std::vector<M> c1, c2; trees(n1, depth - 1, cls, c1); trees(n - 1 - n1, depth - 1, cls, c2);
 		for (size_t i = 0; i < c1.size(); i++) for (size_t j = 0; j < c2.size(); j++) {
 			M a = M::arr(); a.a.push_back(c1[i]); a.a.push_back(c2[j]); out.push_back(a);
 			static const int kp[][2] = { { 0, 1 }, { 1, 2 }, { 2, 3 }, { 4, 0 } };
 			for (int k = 0; k < 4; k++) { M o = M::obj(); o.o.push_back(std::make_pair(std::string(KEYS[kp[k][0]]), c1[i])); o.o.push_back(std::make_pair(std::string(KEYS[kp[k][1]]), c2[j])); out.push_back(o); }
 		}
+		if (cls && n1 == 1) for (size_t j = 0; j < c2.size(); j++) { M o = M::obj(); o.set("$type", M::str("T")); o.set("a", c2[j]); out.push_back(o); }
 	}
+}
+// "tree:<i>" keeps its meaning: the class-free trees first, then the trees that contain a class object
+static std::vector<M> gTrees; static size_t gPlainTrees = 0;
+static void buildTrees() {
+	if (!gTrees.empty()) return;
+	bool T = vf::opt.thorough();
+	for (int n = 1; n <= (T ? 6 : 5); n++) trees(n, T ? 4 : 3, false, gTrees);
+	gPlainTrees = gTrees.size();
+	std::vector<M> c; for (int n = 1; n <= (T ? 6 : 5); n++) trees(n, T ? 4 : 3, true, c);
+	for (size_t i = 0; i < c.size(); i++) if (hasClass(c[i])) gTrees.push_back(c[i]);
 }
 
 static double mkdouble(int sign, int expo, int mant) {
@@ -163,8 +248,79 @@ static float mkfloat(int sign, int expo, int mant) {
 	uint32_t m = mant == 0 ? 0 : mant == 1 ? 1 : mant == 2 ? 0x7fffff : 0x2aaaaa;
 	uint32_t u = ((uint32_t)sign << 31) | ((uint32_t)expo << 23) | m; float f; memcpy(&f, &u, 4); return f;
 }
+// ints: the decimal and binary digit-count boundaries, repdigit-free runs of every length, d*10^k +-1
+static std::vector<int> intGrid() {
+	std::set<long long> s;
+	long long base[] = { 0, -1, 1, 9, 10, 999999999, 1000000000, -999999999, -1000000000, INT_MAX, INT_MIN, INT_MAX - 1, (long long)INT_MIN + 1, 123456789, -123456789 };
+	for (size_t i = 0; i < sizeof base / sizeof *base; i++) s.insert(base[i]);
+	for (int i = 0; i <= 32; i++) s.insert(i);
+	long long p = 1;
+	for (int k = 0; k <= 9; k++, p *= 10) for (int d = 1; d <= 9; d++) for (int e = -1; e <= 1; e++) { s.insert(d * p + e); s.insert(-(d * p + e)); }
+	for (int k = 0; k <= 31; k++) for (int e = -1; e <= 1; e++) { s.insert((1LL << k) + e); s.insert(-((1LL << k) + e)); }
+	long long up = 0, down = 0;
+	for (int k = 1; k <= 10; k++) { up = up * 10 + k % 10; down = down * 10 + (10 - k); s.insert(up); s.insert(-up); s.insert(down); s.insert(-down); }
+	std::vector<int> r;
+	for (std::set<long long>::iterator it = s.begin(); it != s.end(); ++it) if (*it >= INT_MIN && *it <= INT_MAX) r.push_back((int)*it);
+	return r;
+}
+
+// ---------------------------------------------------------------- decimal-comma locale
+// An installed comma locale is used when there is one; otherwise a minimal locale (LC_NUMERIC with decimal_point ",") is
+// compiled with localedef into the scratch directory and found through LOCPATH.
+static std::string gLocale; static bool gLocaleTried = false;
+static bool commaNow() { lconv* lc = localeconv(); return lc && lc->decimal_point && lc->decimal_point[0] == ','; }
+static bool enterCommaLocale() {
+	if (!gLocale.empty()) return setlocale(LC_NUMERIC, gLocale.c_str()) && commaNow();
+	if (gLocaleTried) return false;
+	gLocaleTried = true;
+	const char* names[] = { "de_DE.UTF-8", "de_DE.utf8", "de_DE", "fr_FR.UTF-8", "fr_FR.utf8", "es_ES.UTF-8", "es_ES.utf8", "it_IT.UTF-8", "it_IT.utf8", "pt_BR.UTF-8", "nl_NL.UTF-8", "ru_RU.UTF-8", "pl_PL.UTF-8" };
+	for (size_t i = 0; i < sizeof names / sizeof *names; i++) if (setlocale(LC_NUMERIC, names[i]) && commaNow()) { gLocale = names[i]; return true; }
+	std::string dir = vf::scratch_dir() + "/loc";
+	std::string cmd = "mkdir -p '" + dir + "'"; if (system(cmd.c_str())) return false;
+	{ FILE* f = fopen((dir + "/VFASCII").c_str(), "w"); if (!f) return false;
+	  fprintf(f, "<code_set_name> VFASCII\n<comment_char> %%\n<escape_char> /\n<mb_cur_min> 1\n<mb_cur_max> 1\nCHARMAP\n"); for (int i = 0; i < 128; i++) fprintf(f, "<U%04X> /x%02x\n", i, i); fprintf(f, "END CHARMAP\n"); fclose(f); }
+	{ FILE* f = fopen((dir + "/vf_comma.src").c_str(), "w"); if (!f) return false;
+	  fprintf(f, "LC_NUMERIC\ndecimal_point \"<U002C>\"\nthousands_sep \"<U002E>\"\ngrouping 3;3\nEND LC_NUMERIC\n"); fclose(f); }
+	cmd = "localedef -c -f '" + dir + "/VFASCII' -i '" + dir + "/vf_comma.src' '" + dir + "/vf_comma' >/dev/null 2>&1";
+	if (system(cmd.c_str())) {}
+	setenv("LOCPATH", dir.c_str(), 1);
+	if (setlocale(LC_NUMERIC, "vf_comma") && commaNow()) { gLocale = "vf_comma"; return true; }
+	setlocale(LC_NUMERIC, "C");
+	return false;
+}
+static void leaveCommaLocale() { setlocale(LC_NUMERIC, "C"); }
 
 // ---------------------------------------------------------------- file round trips
+static std::string slurp(const std::string& path) {
+	std::string s; FILE* f = fopen(path.c_str(), "rb"); if (!f) return s;
+	char b[65536]; size_t n; while ((n = fread(b, 1, sizeof b, f)) > 0) s.append(b, n);
+	fclose(f); return s;
+}
+// What does each boundary between two parse() calls of Xdl::read (every 16382 bytes) split? A token [s,e) is split by a
+// boundary b when s < b < e. Light tokenizer of encoder output (JSON or XDL, no comments).
+enum { CHUNK = 16382 };
+static void classifyBoundaries(const std::string& t) {
+	if (t.size() <= CHUNK) return;
+	size_t nextb = CHUNK, n = t.size();
+	size_t i = 0; bool inStr = false;
+	while (i < n && nextb < n) {
+		size_t s = i, e = i + 1; int w = -1;
+		unsigned char c = t[i];
+		if (inStr) {
+			if (c == '\\') { if (i + 1 < n && t[i + 1] == 'u') { e = i + 6; w = W_SPLIT_UNI; } else { e = i + 2; w = W_SPLIT_ESC; } }
+			else if (c == '"') inStr = false;
+			else if (c >= 0xc0) { e = i + (c >= 0xf0 ? 4 : c >= 0xe0 ? 3 : 2); w = W_SPLIT_UTF8; }
+			else { while (e < n && t[e] != '"' && t[e] != '\\' && (unsigned char)t[e] < 0x80) e++; w = W_SPLIT_STR; }
+		}
+		else if (c == '"') inStr = true;
+		else if (c == '-' || (c >= '0' && c <= '9')) { while (e < n && (isdigit((unsigned char)t[e]) || t[e] == '.' || t[e] == 'e' || t[e] == 'E' || t[e] == '+' || t[e] == '-')) e++; w = W_SPLIT_NUM; }
+		else if (isalpha(c) || c == '_' || c == '$') { while (e < n && (isalnum((unsigned char)t[e]) || t[e] == '_' || t[e] == '$')) e++; w = W_SPLIT_IDENT; }
+		while (nextb < n && nextb < e) { if (nextb > s && w >= 0) { vf::add(w); if (w == W_SPLIT_UNI) vf::note(fmt("read_chunk_splits_unicode_escape_after_%d_chars", (int)(nextb - s))); } nextb += CHUNK; }
+		while (nextb <= s) nextb += CHUNK;
+		i = e;
+	}
+}
+
 static void fileCase(const std::string& doc, const M& m, bool xdl, const std::string& kase) {
 	vf::cur(kase); vf::add(C_EVAL); vf::add(C_DIST);
 	std::string path = vf::scratch_dir() + fmt("/f5.%d.json", (int)getpid());
@@ -173,68 +329,164 @@ static void fileCase(const std::string& doc, const M& m, bool xdl, const std::st
 	std::string why;
 	if (!v.ok()) vf::violation("file_read_reject", fmt("%s::read of a %d-byte document '%s' returned an invalid Var", xdl ? "Xdl" : "Json", (int)doc.size(), doc.size() < 40 ? doc.c_str() : (doc.substr(0, 16) + "..." + doc.substr(doc.size() - 16)).c_str()), kase);
 	else if (!same(v, m, true, why, "$")) vf::violation("file_read_value", fmt("read of a %d-byte document: %s", (int)doc.size(), why.c_str()), kase);
+	else if (doc.size() <= 3) vf::add(W_TINYFILE);
 	remove(path.c_str());
 }
-static void writeReadCase(const M& m, int mode, bool xdl, const std::string& kase) {
+// mode < 0: the default-argument forms Json::write(v, file) (= PRETTY, exact) and Xdl::write(v, file) (= NICE)
+static void writeReadCase(const M& m, int mode, bool xdl, const std::string& kase, bool big = false, bool py = true) {
 	vf::cur(kase); vf::add(C_EVAL); vf::add(C_DIST);
 	std::string path = vf::scratch_dir() + fmt("/w5.%d.json", (int)getpid());
 	Var v = toVar(m);
-	bool ok = xdl ? Xdl::write(v, path.c_str(), mode) : Json::write(v, path.c_str(), Json::Mode(mode));
+	bool ok = mode < 0 ? (xdl ? Xdl::write(v, path.c_str()) : Json::write(v, path.c_str())) : xdl ? Xdl::write(v, path.c_str(), mode) : Json::write(v, path.c_str(), Json::Mode(mode));
 	Var back = xdl ? Xdl::read(path.c_str()) : Json::read(path.c_str());
+	bool exact = mode < 0 ? !xdl : (mode & Json::SIMPLE) == 0;
 	std::string why;
-	FILE* f = fopen(path.c_str(), "rb"); long sz = 0; if (f) { fseek(f, 0, SEEK_END); sz = ftell(f); fclose(f); }
-	if (sz > 16000) vf::add(W_FILE_FLUSH);
-	if (sz > 16382) vf::add(W_FILE_CHUNK);
+	std::string bytes = slurp(path);
+	long sz = (long)bytes.size();
 	if (!ok || !back.ok()) vf::violation("file_roundtrip_reject", fmt("write/read through a %ld-byte file failed (mode %d, %s)", sz, mode, xdl ? "Xdl" : "Json"), kase);
-	else if (!same(back, m, (mode & Json::SIMPLE) == 0, why, "$")) vf::violation("file_roundtrip_value", fmt("write/read through a %ld-byte file (mode %d): %s", sz, mode, why.c_str()), kase);
+	else if (!same(back, m, exact, why, "$")) vf::violation("file_roundtrip_value", fmt("write/read through a %ld-byte file (mode %d): %s", sz, mode, why.c_str()), kase);
+	else {
+		if (sz > 16000) vf::add(W_FILE_FLUSH);
+		if (sz > CHUNK) vf::add(W_FILE_CHUNK);
+		if (mode < 0) vf::add(W_DEFAULT_ARG_FILE);
+		if (big) { vf::add(W_BIG); vf::add(W_BIG_BOUNDARIES, sz / CHUNK); }
+		classifyBoundaries(bytes);
+	}
+	// the bytes on disk go to the independent parser as well (asl's own reader is lenient: BOM, newline as comma, Y/N, comments)
+	if (!xdl && py && ok && allUtf8(m)) { pyline(bytes, m, exact, kase, "file"); vf::add(W_PY_FILE); }
+	if (vf::asan_tripped()) { vf::violation("asan", std::string("ASan ") + vf::asan_what() + " in file write/read", kase); vf::asan_clear(); }
 	remove(path.c_str());
 }
 // token-rich tail preceded by padding inside a string so that the tail meets every alignment against the read chunk / writer flush
 static M paddedDoc(int pad, bool identKey = false) {
 	M root = M::arr();
 	root.a.push_back(M::str(std::string(pad, 'p')));
-	M o = M::obj(); o.o.push_back(std::make_pair(std::string(identKey ? "k_y" : "k\"\\/y"), M::dbl(-1.5e-7))); o.o.push_back(std::make_pair(std::string("u"), M::str("q\"\\\n\xf0\x9f\x98\x80\xc3\xa9")));
+	M o = M::obj(); o.o.push_back(std::make_pair(std::string(identKey ? "k_y" : "k\"\\/y\x01"), M::dbl(-1.5e-7))); o.o.push_back(std::make_pair(std::string("u"), M::str("q\"\\\n\x01\x1f\xf0\x9f\x98\x80\xc3\xa9")));
 	root.a.push_back(o); root.a.push_back(M::integer(INT_MIN)); root.a.push_back(M::boolean(false)); root.a.push_back(M::nul()); root.a.push_back(M::flt(0.1f));
-	M in = M::arr(); in.a.push_back(M::dbl(1e22)); in.a.push_back(M::str("")); root.a.push_back(in);
+	M in = M::arr(); in.a.push_back(M::dbl(1e22)); in.a.push_back(M::str("")); in.a.push_back(M::dbl(0.1 + 0.2)); root.a.push_back(in);
+	M c = M::obj(); c.set("$type", M::str("Cls_1")); c.set("v", M::integer(12345)); root.a.push_back(c);
+	return root;
+}
+// several-MB documents: an array of ntok small tokens of every kind in a fixed cycle, shifted by a leading string of `shift` bytes
+static std::vector<M> bigCycle() {
+	std::vector<M> c;
+	c.push_back(M::integer(0)); c.push_back(M::str("a")); c.push_back(M::dbl(0.5)); c.push_back(M::boolean(true)); c.push_back(M::integer(-7)); c.push_back(M::str("q\"\\/\n")); c.push_back(M::nul());
+	c.push_back(M::dbl(-1.5e-7)); c.push_back(M::integer(1234)); c.push_back(M::str("\x01\x1f")); c.push_back(M::arr()); c.push_back(M::integer(-56789)); c.push_back(M::dbl(0.1 + 0.2)); c.push_back(M::boolean(false));
+	c.push_back(M::str("\xc3\xa9\xe2\x82\xac")); c.push_back(M::integer(1234567)); c.push_back(M::flt(0.1f)); c.push_back(M::obj()); c.push_back(M::str("")); c.push_back(M::integer(INT_MAX)); c.push_back(M::dbl(1e22));
+	{ M a = M::arr(); a.add(M::integer(1)); a.add(M::str("x")); c.push_back(a); }
+	c.push_back(M::str("\xf0\x9f\x98\x80")); c.push_back(M::integer(INT_MIN)); c.push_back(M::dbl(5e-324));
+	{ M o = M::obj(); M a = M::arr(); a.add(M::nul()); o.set("k", a); c.push_back(o); }
+	c.push_back(M::integer(42));
+	{ M o = M::obj(); M z = M::obj(); z.set("z", M::dbl(-0.25)); o.set("k_2", z); o.set("$type", M::str("P")); c.push_back(o); }
+	c.push_back(M::dbl(-DBL_MAX));
+	return c;
+}
+static M bigDoc(int ntok, int shift) {
+	static std::vector<M> cyc = bigCycle();
+	M root = M::arr(); root.a.reserve(ntok + 1);
+	root.a.push_back(M::str(std::string(shift, 's')));
+	for (int i = 0; i < ntok; i++) root.a.push_back(cyc[i % cyc.size()]);
 	return root;
 }
 
-static std::vector<M> gTrees;
 static void run_case(const std::string& k) {
-	unsigned long long a, b; int i, j;
-	if (sscanf(k.c_str(), "tree:%llu", &a) == 1) { if (gTrees.empty()) for (int n = 1; n <= (vf::opt.thorough() ? 6 : 5); n++) trees(n, vf::opt.thorough() ? 4 : 3, false, gTrees); if (a < gTrees.size()) checkOne(gTrees[a], k); }
-	else if (sscanf(k.c_str(), "str:%d:%llu:%d", &i, &a, &j) == 3) { std::string s = strOf(i, a); M m; if (j == 0) m = M::str(s); else if (j == 1) { m = M::obj(); m.o.push_back(std::make_pair(s, M::integer(1))); } else { m = M::arr(); m.a.push_back(M::str(s + "1234567")); m.a.push_back(M::str("123456" + s)); } checkOne(m, k); }
-	else if (sscanf(k.c_str(), "dbl:%d:%d:%d", &i, &j, (int*)&a) == 3) checkOne(M::dbl(mkdouble(i, j, (int)a)), k);
-	else if (sscanf(k.c_str(), "flt:%d:%d:%d", &i, &j, (int*)&a) == 3) checkOne(M::flt(mkfloat(i, j, (int)a)), k);
-	else if (sscanf(k.c_str(), "dec:%llu:%d", &a, &i) == 2) { checkOne(M::dbl((double)a / pow(10.0, i)), k); }
-	else if (sscanf(k.c_str(), "int:%d", &i) == 1) checkOne(M::integer(i), k);
-	else if (sscanf(k.c_str(), "pad:%d:%d:%d", &i, &j, (int*)&a) == 3) writeReadCase(paddedDoc(i, a != 0), j, a != 0, k);
+	unsigned long long a, b; int i, j, x, y;
+	if (k.compare(0, 4, "loc:") == 0) {
+		if (!enterCommaLocale()) { vf::note("comma_locale_unavailable"); return; }
+		vf::add(W_LOCALE);
+		std::string inner = k.substr(4);
+		if (sscanf(inner.c_str(), "dbl:%d:%d:%d", &i, &j, &x) == 3) checkOne(M::dbl(mkdouble(i, j, x)), k, true);
+		else if (sscanf(inner.c_str(), "flt:%d:%d:%d", &i, &j, &x) == 3) checkOne(M::flt(mkfloat(i, j, x)), k, true);
+		else if (sscanf(inner.c_str(), "dec:%llu:%d", &a, &i) == 2) checkOne(M::dbl((double)a / pow(10.0, i)), k, true);
+		else if (sscanf(inner.c_str(), "pad:%d:%d:%d", &i, &j, &x) == 3) writeReadCase(paddedDoc(i, x != 0), j, x != 0, k);
+		leaveCommaLocale();
+	}
+	else if (sscanf(k.c_str(), "tree:%llu", &a) == 1) { buildTrees(); if (a < gTrees.size()) { if (a >= gPlainTrees) vf::add(W_CLASS); checkOne(gTrees[a], k); } }
+	else if (sscanf(k.c_str(), "str:%d:%llu:%d", &i, &a, &j) == 3) checkOne(strShape(strOf(i, a, NSA_OLD), j), k);
+	else if (sscanf(k.c_str(), "st2:%d:%llu:%d", &i, &a, &j) == 3) checkOne(strShape(strOf(i, a, NSA), j), k);
+	// ctl:<byte>:<shape>:<j>  one byte alone, after 'a', before 'a'
+	else if (sscanf(k.c_str(), "ctl:%d:%d:%d", &i, &x, &j) == 3) { std::string s(1, (char)i); if (x == 1) s = "a" + s; else if (x == 2) s += "a"; if (i < 0x20) vf::add(W_CTRL); vf::add(W_BYTES); checkOne(strShape(s, j), k); }
+	// by2:<b1>:<b2>:<j>  every two-byte string
+	else if (sscanf(k.c_str(), "by2:%d:%d:%d", &i, &x, &j) == 3) { std::string s; s += (char)i; s += (char)x; vf::add(W_BYTES); checkOne(strShape(s, j), k); }
+	else if (sscanf(k.c_str(), "dbl:%d:%d:%d", &i, &j, &x) == 3) checkOne(M::dbl(mkdouble(i, j, x)), k, true);
+	else if (sscanf(k.c_str(), "flt:%d:%d:%d", &i, &j, &x) == 3) checkOne(M::flt(mkfloat(i, j, x)), k, true);
+	else if (sscanf(k.c_str(), "dec:%llu:%d", &a, &i) == 2) { checkOne(M::dbl((double)a / pow(10.0, i)), k, true); }
+	else if (sscanf(k.c_str(), "int:%d", &i) == 1) { vf::add(W_INTS); checkOne(M::integer(i), k, true); }
+	else if (sscanf(k.c_str(), "pad:%d:%d:%d", &i, &j, &x) == 3) writeReadCase(paddedDoc(i, x != 0), j, x != 0, k);
+	// big:<tokens>:<shift>:<mode>:<xdl>
+	else if (sscanf(k.c_str(), "big:%d:%d:%d:%d", &i, &j, &x, &y) == 4) writeReadCase(bigDoc(i, j), x, y != 0, k, true, j % 16 == 0 && i <= 30000);
 	(void)b;
+}
+
+// python: every JSON encoder output with valid UTF-8 content (texts and written files, all modes) must be accepted by python
+// json and denote the same value. Returns false when the cross-check itself did not run to completion (harness error).
+static bool pythonStep() {
+	std::vector<std::string> files = vf::list_scratch("py5.");
+	uint64_t emitted = vf::get(C_PY);
+	std::string listfn = vf::scratch_dir() + "/py5list", outfn = vf::scratch_dir() + "/py5.out";
+	{ FILE* lf = fopen(listfn.c_str(), "w"); if (!lf) { fprintf(stderr, "[C05] cannot write %s\n", listfn.c_str()); return false; } for (size_t i = 0; i < files.size(); i++) fprintf(lf, "%s\n", files[i].c_str()); fclose(lf); }
+	std::string cmd = "python3 /verif/tools/ref_c05.py --list '" + listfn + "' > '" + outfn + "' 2>&1";
+	int rc = system(cmd.c_str());
+	FILE* f = fopen(outfn.c_str(), "r");
+	std::string out; long long checked = -1, bad = -1; int nbad = 0;
+	char* line = 0; size_t cap = 0;
+	while (f && getline(&line, &cap, f) > 0) {
+		std::string l = line; while (!l.empty() && l[l.size() - 1] == '\n') l.resize(l.size() - 1);
+		if (out.size() < 4000) out += l.substr(0, 400) + "\n";
+		if (l.compare(0, 4, "BAD ") == 0) {
+			// BAD <case>|<what> TAB <reason and text>
+			size_t tab = l.find('\t'); std::string kw = l.substr(4, tab == std::string::npos ? std::string::npos : tab - 4), why = tab == std::string::npos ? "" : l.substr(tab + 1);
+			size_t bar = kw.rfind('|'); std::string kase = kw.substr(0, bar), what = bar == std::string::npos ? "" : kw.substr(bar + 1);
+			if (nbad++ < 30) vf::violation("python_rejects_or_differs", "independent strict JSON parser, " + what + ": " + why.substr(0, 900), kase);
+		}
+		else if (sscanf(l.c_str(), "checked %lld bad %lld", &checked, &bad) == 2) {}
+	}
+	free(line); if (f) fclose(f);
+	vf::setinfo("python_strict_parser", vf::jstr(out.size() > 800 ? out.substr(out.size() - 800) : out));
+	vf::setinfo("python_lines_emitted", fmt("%llu", (unsigned long long)emitted));
+	if (vf::get(C_PY_OPENFAIL)) { fprintf(stderr, "[C05] %llu texts could not be handed to python (cannot open the py5.* scratch file)\n", (unsigned long long)vf::get(C_PY_OPENFAIL)); return false; }
+	if (checked < 0) { fprintf(stderr, "[C05] python cross-check did not complete (exit status %d): %s\n", rc, out.substr(0, 600).c_str()); return false; }
+	if ((uint64_t)checked != emitted) {
+		// lines still buffered in a worker that died are lost with it; the crash itself is already a violation
+		if (vf::nviolations() == 0) { fprintf(stderr, "[C05] python checked %lld texts but %llu were emitted\n", checked, (unsigned long long)emitted); return false; }
+		return true;
+	}
+	if (bad != nbad && !(bad > 200 && nbad == 200)) { fprintf(stderr, "[C05] python reports %lld bad texts but %d BAD lines were read\n", bad, nbad); return false; }
+	if ((bad != 0) != (rc != 0)) { fprintf(stderr, "[C05] python exit status %d does not match its report (%lld bad)\n", rc, bad); return false; }
+	if (checked > 0) vf::add(W_PY_CHECKED, (uint64_t)checked);
+	return true;
 }
 
 int main(int argc, char** argv) {
 	vf::init(argc, argv, "C05", "c05_jsonenc");
 	C_EVAL = vf::counter("evaluations"); C_DIST = vf::counter("distinct_nontrivial"); C_PY = vf::counter("encoder_outputs_checked_by_python_json");
 	W_FILE_CHUNK = vf::counter("w.files_beyond_16382_read_chunk"); W_FILE_FLUSH = vf::counter("w.files_beyond_16000_writer_flush"); W_TINYFILE = vf::counter("w.files_of_1_to_3_bytes");
-	if (vf::opt.replay) { vf::parallel(1, [&](uint64_t) { run_case(vf::opt.kase); }); return vf::finish(); }
+	W_DEFAULT_ARG = vf::counter("w.default_argument_encodes"); W_DEFAULT_ARG_FILE = vf::counter("w.default_argument_file_writes");
+	W_NON_UTF8 = vf::counter("w.non_utf8_cases"); C_SKIP_XDL = vf::counter("cases_without_xdl_modes_non_identifier_keys"); C_PY_SAME = vf::counter("python_skipped_text_identical_to_exact_mode_text");
+	W_PY_SIMPLE = vf::counter("w.python_simple_mode_texts"); W_PY_FILE = vf::counter("w.python_written_files"); C_PY_OPENFAIL = vf::counter("python_line_open_failures"); W_PY_CHECKED = vf::counter("w.python_checked_equals_emitted");
+	W_CTRL = vf::counter("w.control_byte_cases"); W_BYTES = vf::counter("w.single_and_double_byte_string_cases"); W_CLASS = vf::counter("w.trees_with_xdl_class"); W_LOCALE = vf::counter("w.comma_locale_cases"); W_INTS = vf::counter("w.int_grid_cases");
+	W_SPLIT_UNI = vf::counter("w.read_chunk_splits_unicode_escape"); W_SPLIT_ESC = vf::counter("w.read_chunk_splits_two_char_escape"); W_SPLIT_NUM = vf::counter("w.read_chunk_splits_number"); W_SPLIT_UTF8 = vf::counter("w.read_chunk_splits_utf8_sequence");
+	W_SPLIT_IDENT = vf::counter("w.read_chunk_splits_literal_or_identifier"); W_SPLIT_STR = vf::counter("w.read_chunk_splits_plain_string_run"); W_BIG = vf::counter("w.big_files"); W_BIG_BOUNDARIES = vf::counter("w.big_file_chunk_boundaries");
+	if (vf::opt.replay) { vf::parallel(1, [&](uint64_t) { run_case(vf::opt.kase); }); bool pyok = pythonStep(); int rc = vf::finish(); return pyok ? rc : 2; }
 	bool T = vf::opt.thorough();
-	// (1) all trees with <= 5 nodes (quick: <= 4)
-	for (int n = 1; n <= (T ? 6 : 5); n++) trees(n, T ? 4 : 3, false, gTrees);
+	// (1) all trees with <= 5 nodes (thorough: <= 6), then those with class objects
+	buildTrees();
 	size_t ntrees = gTrees.size();
-	size_t lim = ntrees;
-	vf::parallel(lim, [&](uint64_t i) { checkOne(gTrees[i], fmt("tree:%llu", (unsigned long long)i)); vf::add(C_DIST); }, 64);
-	vf::setinfo("trees", fmt("{\"enumerated\": %llu, \"run\": %llu}", (unsigned long long)ntrees, (unsigned long long)lim));
-	// (2) every string of length <= 2 over the 15-symbol alphabet as value, as key, and at the 7/8-byte inline boundary
-	for (int len = 0; len <= (T ? 4 : 3); len++) { uint64_t n = 1; for (int i = 0; i < len; i++) n *= NSA; vf::parallel(n, [&](uint64_t i) { for (int j = 0; j < 3; j++) { run_case(fmt("str:%d:%llu:%d", len, (unsigned long long)i, j)); vf::add(C_DIST); } }, 16); }
+	vf::parallel(ntrees, [&](uint64_t i) { run_case(fmt("tree:%llu", (unsigned long long)i)); vf::add(C_DIST); }, 64);
+	vf::setinfo("trees", fmt("{\"enumerated\": %llu, \"with_class\": %llu}", (unsigned long long)ntrees, (unsigned long long)(ntrees - gPlainTrees)));
+	// (2) every string of length <= 3 (thorough 4) over the 18-symbol alphabet as value, as key, and at the 7/8-byte inline boundary;
+	//     every single byte 1..255 alone / after 'a' / before 'a'; thorough: every two-byte string
+	for (int len = 0; len <= (T ? 4 : 3); len++) { uint64_t n = 1; for (int i = 0; i < len; i++) n *= NSA; vf::parallel(n, [&](uint64_t i) { for (int j = 0; j < 3; j++) { run_case(fmt("st2:%d:%llu:%d", len, (unsigned long long)i, j)); vf::add(C_DIST); } }, 16); }
+	vf::parallel(255, [&](uint64_t b) { for (int sh = 0; sh < 3; sh++) for (int j = 0; j < 3; j++) { run_case(fmt("ctl:%d:%d:%d", (int)b + 1, sh, j)); vf::add(C_DIST); } }, 4);
+	if (T) vf::parallel(255 * 255, [&](uint64_t q) { for (int j = 0; j < 2; j++) { run_case(fmt("by2:%d:%d:%d", (int)(q / 255) + 1, (int)(q % 255) + 1, j)); vf::add(C_DIST); } }, 64);
 	// (3) doubles: every exponent x 4 mantissas x sign; k/10^n; floats likewise; ints
 	vf::parallel(2047, [&](uint64_t e) { for (int s = 0; s < 2; s++) for (int m = 0; m < 4; m++) { run_case(fmt("dbl:%d:%d:%d", s, (int)e, m)); vf::add(C_DIST); } }, 8);
 	vf::parallel(255, [&](uint64_t e) { for (int s = 0; s < 2; s++) for (int m = 0; m < 4; m++) { run_case(fmt("flt:%d:%d:%d", s, (int)e, m)); vf::add(C_DIST); } }, 8);
 	vf::parallel(1000, [&](uint64_t k) { for (int n = 0; n <= 20; n++) { run_case(fmt("dec:%llu:%d", (unsigned long long)k, n)); vf::add(C_DIST); } }, 8);
+	{ std::vector<int> is = intGrid(); vf::parallel(is.size(), [&](uint64_t i) { run_case(fmt("int:%d", is[i])); vf::add(C_DIST); }, 16); vf::setinfo("int_grid", fmt("%d", (int)is.size())); }
 	vf::parallel(1, [&](uint64_t) {
-		int is[] = { 0, -1, 1, 9, 10, 999999999, 1000000000, -999999999, -1000000000, INT_MAX, INT_MIN, INT_MAX - 1, INT_MIN + 1, 123456789, -123456789 };
-		for (size_t i = 0; i < sizeof is / sizeof *is; i++) { run_case(fmt("int:%d", is[i])); vf::add(C_DIST); }
 		double ds[] = { 0.1, 1.0 / 3, 1e22, 1e-7, 123456789012.0, 5e-324, DBL_MIN, DBL_MAX, -DBL_MAX, -0.0, 0.0, 1e21, 1e15, 123456789.5, 4294967296.0, 2147483648.0, -2147483649.0 };
-		for (size_t i = 0; i < sizeof ds / sizeof *ds; i++) { checkOne(M::dbl(ds[i]), fmt("dblv:%d", (int)i)); vf::add(C_DIST); }
+		for (size_t i = 0; i < sizeof ds / sizeof *ds; i++) { checkOne(M::dbl(ds[i]), fmt("dblv:%d", (int)i), true); vf::add(C_DIST); }
 		// shapes that reach the pretty-printer branches
 		int ns[] = { 11, 17, 33 };
 		for (int q = 0; q < 3; q++) { M a = M::arr(); for (int i = 0; i < ns[q]; i++) a.a.push_back(M::integer(i)); checkOne(a, fmt("shape:ints%d", ns[q])); M s = M::arr(); for (int i = 0; i < ns[q]; i++) s.a.push_back(M::str("string-of-some-length-" + fmt("%d", i))); checkOne(s, fmt("shape:strs%d", ns[q])); vf::add(C_DIST, 2); }
@@ -245,38 +497,40 @@ int main(int argc, char** argv) {
 	vf::parallel(1, [&](uint64_t) {
 		fileCase("1", M::integer(1), false, "file:1"); fileCase("[]", M::arr(), false, "file:[]"); fileCase("{}", M::obj(), false, "file:{}"); fileCase("12", M::integer(12), false, "file:12"); fileCase("\"\"", M::str(""), false, "file:emptystr");
 	});
-	vf::parallel(1, [&](uint64_t) { vf::add(W_TINYFILE, 5); M a = M::arr(); a.a.push_back(M::integer(1)); fileCase("[1]", a, false, "file:[1]"); fileCase("[1]", a, true, "file:x[1]"); fileCase("7", M::integer(7), true, "file:x7"); fileCase("\xef\xbb\xbf[1]", a, false, "file:bom[1]"); });
+	vf::parallel(1, [&](uint64_t) { M a = M::arr(); a.a.push_back(M::integer(1)); fileCase("[1]", a, false, "file:[1]"); fileCase("[1]", a, true, "file:x[1]"); fileCase("7", M::integer(7), true, "file:x7"); fileCase("\xef\xbb\xbf[1]", a, false, "file:bom[1]"); });
+	std::vector<int> pads;
 	{
 		String tailText = Json::encode(toVar(paddedDoc(0)), Json::NONE);
 		int tail = tailText.length() + 8;
-		std::vector<int> pads;
 		for (int base = 15990 - tail; base <= 16390; base++) if (base > 0) pads.push_back(base);
 		for (int base = 32764 - tail; base <= 32770; base++) pads.push_back(base);
 		for (int d = -2; d <= 2; d++) pads.push_back(100000 + d - tail / 2);
-		vf::parallel(pads.size(), [&](uint64_t i) { int modes[] = { Json::NONE, Json::PRETTY }; for (int mi = 0; mi < 2; mi++) for (int x = 0; x < 2; x++) if (!(x && mi)) run_case(fmt("pad:%d:%d:%d", pads[i], modes[mi], x)); }, 4);
+		// Json NONE / PRETTY / default argument; Xdl NONE / default argument
+		vf::parallel(pads.size(), [&](uint64_t i) { int modes[] = { Json::NONE, Json::PRETTY, -1 }; for (int mi = 0; mi < 3; mi++) for (int x = 0; x < 2; x++) if (!(x && mi == 1)) run_case(fmt("pad:%d:%d:%d", pads[i], modes[mi], x)); }, 4);
 		vf::setinfo("file_alignments", fmt("%d", (int)pads.size()));
 	}
-	// python: every JSON encoder output (exact modes, valid UTF-8 content) must be accepted by python json and denote the same value
-	std::vector<std::string> files = vf::list_scratch("py5.");
-	if (!files.empty()) {
-		std::string cmd = "python3 /verif/tools/ref_c05.py";
-		for (size_t i = 0; i < files.size(); i++) cmd += " '" + files[i] + "'";
-		cmd += " > '" + vf::scratch_dir() + "/py5.out' 2>&1";
-		int rc = system(cmd.c_str());
-		FILE* f = fopen((vf::scratch_dir() + "/py5.out").c_str(), "r");
-		std::string out, first; char line[4000];
-		while (f && fgets(line, sizeof line, f)) { out += line; if (first.empty() && strncmp(line, "BAD", 3) == 0) first = line; }
-		if (f) fclose(f);
-		vf::setinfo("python_strict_parser", vf::jstr(out.size() > 800 ? out.substr(out.size() - 800) : out));
-		if (rc != 0) {
-			// each BAD line: BAD <hex text> <reason>
-			f = fopen((vf::scratch_dir() + "/py5.out").c_str(), "r"); int n = 0;
-			while (f && fgets(line, sizeof line, f)) if (strncmp(line, "BAD", 3) == 0 && n++ < 30) { std::string l = line; while (!l.empty() && l[l.size() - 1] == '\n') l.resize(l.size() - 1); vf::violation("python_rejects_or_differs", "independent strict JSON parser: " + l.substr(4), "pytext:" + l.substr(4, l.find(' ', 4) - 4)); }
-			if (f) fclose(f);
-		}
+	// (5) big documents: ~200 KB (12 read chunks, 12 writer flushes) at consecutive shifts; thorough: one full token cycle of shifts and ~3 MB documents
+	{
+		int cycleBytes = Json::encode(toVar(bigDoc((int)bigCycle().size(), 0)), Json::NONE).length();
+		int ntok = 22000, nshift = T ? cycleBytes : 64;
+		vf::parallel(nshift, [&](uint64_t s) { run_case(fmt("big:%d:%d:%d:0", ntok, (int)s, (int)Json::NONE)); run_case(fmt("big:%d:%d:-1:1", ntok, (int)s)); if (T) { run_case(fmt("big:%d:%d:-1:0", ntok, (int)s)); run_case(fmt("big:%d:%d:%d:1", ntok, (int)s, (int)Json::NONE)); } }, 1);
+		if (T) vf::parallel(8, [&](uint64_t s) { run_case(fmt("big:%d:%d:%d:%d", 330000, (int)(s / 2) * 5, s % 2 ? -1 : (int)Json::NONE, (int)(s % 2))); }, 1);
+		vf::setinfo("big_documents", fmt("{\"tokens\": %d, \"shifts\": %d, \"token_cycle_bytes\": %d}", ntok, nshift, cycleBytes));
 	}
-	vf::sample("tree [\"a\\\"\\\\/\\n\\x01\", {\"k/\\\"\\\\\": 0.1, \"\": 2.7f}] in Json NONE/PRETTY/SIMPLE/NICE and Xdl modes");
-	vf::sample("double 0x1.fffffffffffffp-1022, 5e-324, -DBL_MAX, every exponent x {0,1,all-ones,alternating} mantissa; k/10^n for k<1000, n<=20");
-	vf::sample("Json::write/read with a token-rich tail placed at every offset around byte 16000 and 16382; files \"1\", \"[]\", \"{}\"");
-	return vf::finish();
+	// (6) decimal-comma locale: the number grids and the file alignments around the read chunk once more with LC_NUMERIC decimal_point ","
+	if (enterCommaLocale()) {
+		leaveCommaLocale();
+		vf::setinfo("comma_locale", vf::jstr(gLocale));
+		vf::parallel(2047, [&](uint64_t e) { for (int s = 0; s < 2; s++) for (int m = 0; m < 4; m++) { run_case(fmt("loc:dbl:%d:%d:%d", s, (int)e, m)); vf::add(C_DIST); } }, 8);
+		vf::parallel(255, [&](uint64_t e) { for (int s = 0; s < 2; s++) for (int m = 0; m < 4; m++) { run_case(fmt("loc:flt:%d:%d:%d", s, (int)e, m)); vf::add(C_DIST); } }, 8);
+		vf::parallel(1000, [&](uint64_t k) { for (int n = 0; n <= 20; n++) { run_case(fmt("loc:dec:%llu:%d", (unsigned long long)k, n)); vf::add(C_DIST); } }, 8);
+		vf::parallel(pads.size(), [&](uint64_t i) { if (pads[i] < 16300 || pads[i] > 16390) return; run_case(fmt("loc:pad:%d:%d:0", pads[i], (int)Json::NONE)); run_case(fmt("loc:pad:%d:-1:1", pads[i])); }, 4);
+	}
+	else vf::setinfo("comma_locale", "\"none installed and localedef could not build one: the locale fix is NOT exercised\"");
+	bool pyok = pythonStep();
+	vf::sample("tree [\"a\\\"\\\\/\\n\\x01\", {\"k/\\\"\\\\\": 0.1, \"\": 2.7f}] in Json NONE/PRETTY/SIMPLE/NICE and Xdl modes; T{a=[null]} with class");
+	vf::sample("double 0x1.fffffffffffffp-1022, 5e-324, -DBL_MAX, every exponent x {0,1,all-ones,alternating} mantissa; k/10^n for k<1000, n<=20; the same under decimal_point ','");
+	vf::sample("Json::write/read with a token-rich tail (\\u0001 escapes, 17-digit double, class object) placed at every offset around byte 16000 and 16382; files \"1\", \"[]\", \"{}\"; 200 KB arrays at 64 shifts");
+	int rc = vf::finish();
+	return pyok ? rc : 2;
 }
